@@ -28,6 +28,7 @@ EXPLANATION = (
     "solution."
     "Round 7: (OPTIONS) the caller's objective and outer-product option reach the DP as given; (PRESIMP) the batch-index simplification compares the index's carriers with the number of tensors, never the appearance table. "
     'Round 8: (OPTIONS) also the network (inputs, output, size_dict) reaches the processor as given. '
+    "Round 8 (engine E9): (COSTEVAL, shared with C18-PUREFNS) the step-cost functions, evaluated on a bounded family, return their objectives' definitions and leave the surviving legs behind. "
 )
 ASSUMPTIONS = (
     "step costs are monotone (a tree's score is >= the scores of its subtrees), which is "
@@ -1160,4 +1161,13 @@ def rule_presimp(ctx):
     return r
 
 
-RULES = [rule_options, rule_presimp, rule_costfn, rule_dp, rule_enum, rule_cap, rule_sorted, rule_factor]
+def rule_costeval(ctx):
+    """Shared with C18-PUREFNS (engine E9): the six step-cost functions of the optimal finder, evaluated on a bounded
+    family of term pairs, return their objective's definition and leave exactly the surviving legs behind."""
+    from .c18 import rule_purefns as src
+
+    return C.reuse_rule(ctx, src, "C18-PUREFNS", "C09-COSTEVAL", "the step-cost functions equal the objectives' definitions on a bounded family",
+                        lambda i: "compute_con_cost" in i.construct or "compute_contracted" in i.construct, 7)
+
+
+RULES = [rule_costeval, rule_options, rule_presimp, rule_costfn, rule_dp, rule_enum, rule_cap, rule_sorted, rule_factor]
